@@ -6,6 +6,7 @@ macro_rules! registry {
             "C24" => dispatch!($action, props::c24::C24, $ctx, $path),
             "C27" => dispatch!($action, props::c27::C27, $ctx, $path),
             "C28" => dispatch!($action, props::c28::C28, $ctx, $path),
+            "C38" => dispatch!($action, props::c38::C38, $ctx, $path),
             "C12" => dispatch!($action, props::c12::C12, $ctx, $path),
             "C35" => dispatch!($action, props::c35::C35, $ctx, $path),
             "C36" => dispatch!($action, props::c36::C36, $ctx, $path),
